@@ -229,7 +229,9 @@ def main(argv: list[str]) -> int:
         "wall_s": round(wall, 2),
         "violations": len(failures),
     }
-    ev_dir = VERIF / "evidence"
+    # evidence/ only ever describes runs against /repo itself; runs against a scratch copy (VERIF_REPO) go elsewhere
+    scratch = os.environ.get("VERIF_REPO", "/repo").rstrip("/") != "/repo"
+    ev_dir = VERIF / (".scratch-evidence" if scratch else "evidence")
     ev_dir.mkdir(exist_ok=True)
     (ev_dir / f"{prop}.json").write_text(json.dumps(canon(evidence), indent=1))
 
